@@ -37,6 +37,7 @@ import (
 	"net"
 	"os"
 	"strings"
+	"syscall"
 )
 
 const (
@@ -181,7 +182,13 @@ func ElideError(err error) string {
 	case *net.UnknownNetworkError:
 		return "unknown network " + elidedAddr
 	case *net.OpError:
-		return t.Op + ": " + t.Err.Error()
+		// The wrapped error is frequently one of the types above (eg: a
+		// DNSError from a failed lookup), so it has to be scrubbed as well.
+		return t.Op + ": " + ElideError(t.Err)
+	case syscall.Errno:
+		// The cause of a failed system call ("connection refused"), the
+		// text comes from a fixed table and contains no addresses.
+		return t.Error()
 	default:
 		// For unknown error types, do the conservative thing and only log the
 		// type of the error instead of assuming that the string representation
